@@ -18,7 +18,7 @@ RULE = (
 )
 ASSUMPTIONS = [
     "z3 answers and models trusted; reference semantics of vf/ref.py (unscheduled = deleted)",
-    "for the deletion relation the deleted tasks are not named by force/condition/dependency/N-of-m rules, logical operands, or selections named by Same/DistinctWorkers, and no resource constraint loses its last assignment (otherwise the deleted problem is ambiguous)",
+    "for the deletion relation the deleted tasks are not named by force/condition/dependency/N-of-m rules, logical operands, a Same/DistinctWorkers constraint goes with the selection of a deleted task, and no resource constraint loses its last assignment (otherwise the deleted problem is ambiguous)",
 ]
 TECHNIQUE = "Hypothesis-generated problems; reference-model differential (both directions) + deletion metamorphic relation"
 
@@ -36,6 +36,10 @@ PROFILES.append(
 PROFILE_GP = S.profile(min_tasks=2, max_tasks=3, horizon=(3, 6), p_no_horizon=5, p_resources=30, task_constraints=(0, 1), optional_rules=(0, 0), resource_constraints=(0, 0),
                        p_group_precedence=100, p_work_amount=5, p_optional=65)
 PROFILES.append(PROFILE_GP)
+# pairwise task constraints (precedences with offsets, synchronisations, non-overlap) whose operands are mostly optional tasks
+PROFILE_PAIR = S.profile(min_tasks=2, max_tasks=3, horizon=(4, 8), p_no_horizon=5, p_resources=20, task_constraints=(1, 2), optional_rules=(0, 0), resource_constraints=(0, 0),
+                         focus=["TaskPrecedence", "TaskPrecedence", "TasksStartSynced", "TasksEndSynced", "TasksDontOverlap"], p_optional=75, p_work_amount=0, p_release=10, p_due=10,
+                         exclude=("TasksContiguous", "UnorderedTaskGroup", "OrderedTaskGroup", "ScheduleNTasksInTimeIntervals"))
 PROFILE_DEL = S.profile(min_tasks=2, max_tasks=4, horizon=(2, 6), p_no_horizon=10, p_resources=65, task_constraints=(0, 3), optional_rules=(0, 1), resource_constraints=(0, 1), buffers=(0, 1), p_work_amount=30, p_delay=25, p_group_precedence=15, **OPT)
 PROFILE_COMP = S.profile(min_tasks=2, max_tasks=3, horizon=(2, 5), p_no_horizon=5, p_resources=60, task_constraints=(0, 2), optional_rules=(0, 2), resource_constraints=(0, 1), buffers=(0, 1), p_work_amount=30, p_delay=25, p_group_precedence=15, **OPT)
 
@@ -83,14 +87,6 @@ def deletable(spec):
                 named.update(ref.expr_tasks(c["cond"]))
         if ty in S.FOL_TYPES or ty == "ConstraintFromExpression":
             named.update(_formula_tasks(c))
-    sd = set()
-    for c in spec["constraints"]:
-        if c["type"] in ("SameWorkers", "DistinctWorkers"):
-            sd.update([c["s1"], c["s2"]])
-    sel_task = {a["res"]: a["task"] for a in spec["assign"]}
-    for s_ in sd:
-        if s_ in sel_task:
-            named.add(sel_task[s_])
     for i in spec["indicators"]:
         if i["type"] == "FromMathExpression":
             named.update(ref.expr_tasks(i["expr"]))
@@ -188,7 +184,7 @@ def delete_tasks(spec, U):
                 return None
         elif ty in ("SameWorkers", "DistinctWorkers"):
             if c["s1"] in dropped_selects or c["s2"] in dropped_selects:
-                return None
+                continue  # the selection of a deleted task binds nothing
         cons.append(c)
     new["constraints"] = cons
     inds = []
@@ -362,6 +358,8 @@ def run_shard(ctx):
     run_hypothesis(ctx, S.spec_with_pins(PROFILE_DEL, n_sets=5), prop_delete, max_examples=45 if q else 500)
     run_hypothesis(ctx, S.spec_with_pins(PROFILE_GP, n_sets=2, n_cands=6), prop_complete, max_examples=20 if q else 250)
     run_hypothesis(ctx, S.spec_with_pins(PROFILE_GP, n_sets=5), prop_delete, max_examples=25 if q else 300)
+    run_hypothesis(ctx, S.spec_with_pins(PROFILE_PAIR, n_sets=2, n_cands=6), prop_complete, max_examples=20 if q else 250)
+    run_hypothesis(ctx, S.spec_with_pins(PROFILE_PAIR, n_sets=5), prop_delete, max_examples=25 if q else 300)
     run_hypothesis(ctx, S.spec_with_pins(PROFILES[0], n_sets=0), prop_report, max_examples=40 if q else 400)
 
 
